@@ -821,6 +821,9 @@ addmember(struct structbuilder *b, struct qualtype mt, char *name, int align, un
 			m->bits.after = mt.type->size * 8 - width;
 			if (t->size < mt.type->size)
 				t->size = mt.type->size;
+		} else if (t->size < (width + 7) / 8) {
+			/* an unnamed bit-field occupies storage in a union as well */
+			t->size = (width + 7) / 8;
 		}
 	}
 	if (m && t->align < align)
